@@ -46,6 +46,9 @@ def to_act(label):
     if name == 'VLoad':
         rows = args[0] if isinstance(args[0], list) else []
         return ['LoadBuild', [dict(r) for r in rows], {}]
+    if name == 'VLoadInto':
+        rows = args[0] if isinstance(args[0], list) else []
+        return ['LoadInto', [dict(r) for r in rows]]
     if name == 'VSaveLoad':
         return ['SaveLoad', {}]
     out = [name[1:] if name.startswith('H') else name]
@@ -106,7 +109,7 @@ def max_ordinal(runs):
                 cnt[a[1]] = cnt.get(a[1], 0) + 1
             elif a[0] == 'NewRow':
                 cnt[a[1]['c']] = cnt.get(a[1]['c'], 0) + 1
-            elif a[0] == 'LoadBuild':
+            elif a[0] in ('LoadBuild', 'LoadInto'):
                 for row in a[1]:
                     cnt[row['c']] = cnt.get(row['c'], 0) + 1
         if cnt:
